@@ -133,7 +133,7 @@ SPECS["C12"] = dict(
     ],
 )
 
-ROOT_OVERLAY = ["zz_verif_c14_test.go", "zz_verif_c14_map_test.go", "zz_verif_c14_matrix_test.go"]
+ROOT_OVERLAY = ["zz_verif_c14_test.go", "zz_verif_c14_map_test.go", "zz_verif_c14_matrix_test.go", "zz_verif_c16_test.go", "zz_verif_c15_test.go"]
 
 SPECS["C14"] = dict(
     level="exploration",
@@ -151,5 +151,54 @@ SPECS["C14"] = dict(
             dict(id="rowboundary", run="^TestC14RowBoundary$", quick=dict(shards=2, checks=6, timeout=300),
                  thorough=dict(shards=4, checks=150, timeout=1800)),
         ]) for tg in ["", "gc_opt"]
+    ],
+)
+
+SPECS["C16"] = dict(
+    level="exploration",
+    technique="property-based testing (rapid): grammar-generated well-formed and ill-formed addresses against an as-written oracle, arbitrary strings against totality/validity predicates, generated option values against a reference normaliser; native fuzz target in the thorough tier",
+    rule="cases: (a) scheme (any letter case) x host {name, IPv4, [IPv6], [IPv6%zone] incl. '%' in zones, empty} x port, or unix paths (absolute/relative, './..//' segments, '%', spaces, non-ASCII); "
+         "(b) ill-formed: no scheme, unknown scheme, empty endpoint, path on tcp/udp; (c) arbitrary strings (rapid.String, URL-ish token soup); (d) option ints at <=0, 1, 1020..1030, 2^k+-2 up to 2^62 through "
+         "createListeners and NewClient; non-trivial = address containing '%' or a bracketed literal, or ill-formed, or an accepted arbitrary string, resp. a request that is not already a power of two / a chunk / more than 256 loops; distinct = distinct input",
+    assumptions=["'?' and '#' are not generated inside well-formed unix paths (URL syntax gives them another meaning)", "option values above 2^62 are outside the domain (no power of two fits an int)"],
+    overlay=ROOT_OVERLAY,
+    jobs=[
+        dict(name="c16", pkg=".", tests=[
+            dict(id="wellformed", run="^TestC16ParseWellFormed$", quick=dict(shards=4, checks=40000, timeout=300), thorough=dict(shards=8, checks=500000, timeout=1500)),
+            dict(id="illformed", run="^TestC16ParseIllFormed$", quick=dict(shards=2, checks=30000, timeout=300), thorough=dict(shards=4, checks=300000, timeout=1500)),
+            dict(id="arbitrary", run="^TestC16ParseArbitrary$", quick=dict(shards=4, checks=40000, timeout=300), thorough=dict(shards=8, checks=500000, timeout=1500)),
+            dict(id="options", run="^TestC16Options$", quick=dict(shards=2, checks=3000, timeout=300), thorough=dict(shards=4, checks=40000, timeout=1500)),
+        ]),
+    ],
+)
+
+SPECS["C15"] = dict(
+    level="exploration",
+    technique="property-based testing (rapid): generated accept/close histories on each load balancer over bare event loops, checked against the policy's definition; engine-level sessions check that the assigned loop is the loop that runs the callbacks",
+    rule="a case is a policy (RR/LC/SAH), 1..256 loops and a generated history of next(addr)/close/open-elsewhere operations with addresses from IPv4, IPv6 with zones, Unix paths, empty names and arbitrary strings; "
+         "oracle: RR i-th call -> loop i mod N, LC returned loop has minimal count at call time, SAH same address string -> same loop, always a registered loop; "
+         "non-trivial = N >= 2 and >= 2N accepts; distinct = distinct (policy, N, history)",
+    assumptions=["bare eventloop values with an initialised registry stand in for loops in the policy half"],
+    overlay=ROOT_OVERLAY,
+    jobs=[
+        dict(name="c15", pkg=".", tests=[
+            dict(id="policy", run="^TestC15Policy$", quick=dict(shards=4, checks=1500, timeout=300), thorough=dict(shards=8, checks=25000, timeout=1500)),
+        ]),
+    ],
+)
+
+SPECS["C17"] = dict(
+    level="exploration",
+    technique="property-based testing (rapid): round-trip of generated addresses through the kernel socket-address form; engine-level sessions compare reported addresses with the peers' own",
+    rule="a case is an IP (4-byte, 16-byte v4-mapped, random IPv6, link-local, well-known) x port 0..65535 x zone ('', existing interface names, interface indices, other numbers up to 0xFFFFFE) x tcp/udp x entry point; "
+         "or an invalid one (IP of 0..20 bytes except 4/16, unsupported Unix network, unknown net.Addr type) which must yield nil without panic; or a Unix path; "
+         "non-trivial = IPv6 address with non-empty zone, or an invalid input; distinct = distinct input",
+    assumptions=["zone names that are neither an existing interface nor a decimal number have no kernel representation and are not generated", "numeric zones are generated in canonical decimal form below 0xFFFFFF (the parser's cap)"],
+    overlay=["verifx/c17"],
+    jobs=[
+        dict(name="c17conv", pkg="./verifx/c17", tests=[
+            dict(id="conversion", run="^TestC17Conversion$", quick=dict(shards=4, checks=15000, timeout=300), thorough=dict(shards=8, checks=250000, timeout=1500)),
+            dict(id="invalid", run="^TestC17Invalid$", quick=dict(shards=2, checks=15000, timeout=300), thorough=dict(shards=4, checks=150000, timeout=1500)),
+        ]),
     ],
 )
